@@ -537,7 +537,7 @@ fn indent(lines: &[String], pad: &str) -> String {
     s
 }
 
-fn extract(src: &Src, b: &Block, report: &mut Vec<serde_json::Value>, vacuity: bool) -> Result<String, String> {
+fn extract(src: &Src, b: &Block, report: &mut Vec<serde_json::Value>, vacuity: bool, contract_only: Option<&str>) -> Result<String, String> {
     let mut nth = usize::MAX;
     let mut force_pub: Option<bool> = None;
     let mut ret_name = Some("r".to_string());
@@ -696,6 +696,18 @@ fn extract(src: &Src, b: &Block, report: &mut Vec<serde_json::Value>, vacuity: b
             col.push(te, te, ")".into(), "R3");
         }
         match f.block {
+            Some(block) if contract_only.is_some() => {
+                let open = range(block.brace_token.span.open());
+                let close = range(block.brace_token.span.close());
+                if let Some(sg) = &b.sig {
+                    col.edits.retain(|e| !(e.start >= sig_start && e.end <= open.0));
+                    col.push(sig_start, open.0, format!("{sg}\n"), "RS");
+                }
+                if !b.contract.is_empty() {
+                    col.push(open.0, open.0, format!("\n{}", indent(&b.contract, "\t\t")), "R3");
+                }
+                col.push(open.0, close.1, "{ unimplemented!() }".into(), "IMPORT");
+            }
             Some(block) => {
                 let open = range(block.brace_token.span.open());
                 let close = range(block.brace_token.span.close());
@@ -729,6 +741,17 @@ fn extract(src: &Src, b: &Block, report: &mut Vec<serde_json::Value>, vacuity: b
                             _ => close.0,
                         };
                         col.push(at, at, format!("{txt}\t\t"), "H");
+                    } else if place == "result" {
+                        // RB: bind the tail expression to the return name so the proof text can mention it
+                        let rn = ret_name.clone().unwrap_or_else(|| "r".into());
+                        match block.stmts.last() {
+                            Some(syn::Stmt::Expr(e, None)) => {
+                                let (es, ee) = range(e.span());
+                                col.push(es, es, format!("let {rn} = "), "RB");
+                                col.push(ee, ee, format!(";{txt}\t\t{rn}"), "RB");
+                            }
+                            _ => return Err(format!("hint result: {} has no tail expression", b.path)),
+                        }
                     } else if let Some(k) = place.strip_prefix("loop ") {
                         let k: usize = k.trim().parse().map_err(|_| "bad loop ordinal")?;
                         let at = *col.loops.get(k).ok_or_else(|| format!("LOST-ANCHOR: loop {k} not found in {}", b.path))?;
@@ -793,6 +816,11 @@ fn extract(src: &Src, b: &Block, report: &mut Vec<serde_json::Value>, vacuity: b
     let out = apply_edits(text, s0, e0, col.edits.clone())?;
     let ls = text[..s0].matches('\n').count() + 1;
     let le = text[..e0].matches('\n').count() + 1;
+    if contract_only.is_some() && f.kind == "fn" {
+        let out = format!("#[verifier::external_body] /* contract imported from unit {}; the body is verified there */\n\t{}", contract_only.unwrap(), out);
+        report.push(serde_json::json!({"file": b.file, "path": b.path, "kind": "imported-contract", "from_unit": contract_only.unwrap()}));
+        return Ok(out);
+    }
     report.push(serde_json::json!({
         "file": b.file, "path": b.path, "lines": [ls, le], "kind": f.kind,
         "original": orig, "rewrites": counts, "manual": manual,
@@ -813,79 +841,87 @@ fn vis_pub(col: &mut Collector, v: &syn::Visibility, at: usize) {
     }
 }
 
-fn main() {
-    let args: Vec<String> = std::env::args().collect();
-    if args.len() < 5 {
-        eprintln!("usage: vx <template> <repo-root> <out.rs> <report.json> [-D NAME]...");
-        std::process::exit(2);
+fn expand(text: &str, prelude_dir: &std::path::Path, defs: &HashSet<String>, out: &mut Vec<String>, depth: usize) {
+    if depth > 8 {
+        die("include depth");
     }
-    let tpl_path = std::path::PathBuf::from(&args[1]);
-    let repo = std::path::PathBuf::from(&args[2]);
-    let mut defs: HashSet<String> = HashSet::new();
-    let mut i = 5;
-    while i < args.len() {
-        if args[i] == "-D" && i + 1 < args.len() {
-            defs.insert(args[i + 1].clone());
-            i += 2;
-        } else {
-            die(&format!("bad argument {}", args[i]));
+    let mut stack: Vec<bool> = Vec::new();
+    for l in text.lines() {
+        let t = l.trim();
+        if let Some(n) = t.strip_prefix("//@ifdef ") {
+            stack.push(defs.contains(n.trim()));
+            continue;
         }
+        if let Some(n) = t.strip_prefix("//@ifndef ") {
+            stack.push(!defs.contains(n.trim()));
+            continue;
+        }
+        if t == "//@else" {
+            let v = stack.pop().unwrap_or_else(|| die("//@else without //@ifdef"));
+            stack.push(!v);
+            continue;
+        }
+        if t == "//@endif" {
+            stack.pop().unwrap_or_else(|| die("//@endif without //@ifdef"));
+            continue;
+        }
+        if stack.iter().any(|v| !*v) {
+            continue;
+        }
+        if let Some(f) = t.strip_prefix("//@include ") {
+            let p = prelude_dir.join(f.trim());
+            let inc = std::fs::read_to_string(&p).unwrap_or_else(|e| die(&format!("include {}: {e}", p.display())));
+            out.push(format!("// ---- begin include {} ----", f.trim()));
+            expand(&inc, prelude_dir, defs, out, depth + 1);
+            out.push(format!("// ---- end include {} ----", f.trim()));
+            continue;
+        }
+        out.push(l.to_string());
     }
-    let prelude_dir = tpl_path.parent().unwrap().parent().unwrap().join("prelude");
-    let tpl = std::fs::read_to_string(&tpl_path).unwrap_or_else(|e| die(&format!("template: {e}")));
-    // 1. expand includes (recursively) and conditionals into a flat list of lines
-    let mut lines: Vec<String> = Vec::new();
-    fn expand(text: &str, prelude_dir: &std::path::Path, defs: &HashSet<String>, out: &mut Vec<String>, depth: usize) {
-        if depth > 8 {
-            die("include depth");
-        }
-        let mut stack: Vec<bool> = Vec::new();
-        for l in text.lines() {
-            let t = l.trim();
-            if let Some(n) = t.strip_prefix("//@ifdef ") {
-                stack.push(defs.contains(n.trim()));
-                continue;
-            }
-            if let Some(n) = t.strip_prefix("//@ifndef ") {
-                stack.push(!defs.contains(n.trim()));
-                continue;
-            }
-            if t == "//@else" {
-                let v = stack.pop().unwrap_or_else(|| die("//@else without //@ifdef"));
-                stack.push(!v);
-                continue;
-            }
-            if t == "//@endif" {
-                stack.pop().unwrap_or_else(|| die("//@endif without //@ifdef"));
-                continue;
-            }
-            if stack.iter().any(|v| !*v) {
-                continue;
-            }
-            if let Some(f) = t.strip_prefix("//@include ") {
-                let p = prelude_dir.join(f.trim());
-                let inc = std::fs::read_to_string(&p).unwrap_or_else(|e| die(&format!("include {}: {e}", p.display())));
-                out.push(format!("// ---- begin include {} ----", f.trim()));
-                expand(&inc, prelude_dir, defs, out, depth + 1);
-                out.push(format!("// ---- end include {} ----", f.trim()));
-                continue;
-            }
-            out.push(l.to_string());
-        }
-        if !stack.is_empty() {
-            die("unterminated //@ifdef");
-        }
+    if !stack.is_empty() {
+        die("unterminated //@ifdef");
     }
-    expand(&tpl, &prelude_dir, &defs, &mut lines, 0);
+}
 
-    // 2. process extraction blocks
-    let mut cache: HashMap<String, Src> = HashMap::new();
+
+struct Ctx {
+    repo: std::path::PathBuf,
+    defs: HashSet<String>,
+    tpl_dir: std::path::PathBuf,
+    prelude_dir: std::path::PathBuf,
+}
+
+fn process_lines(lines: &[String], ctx: &Ctx, cache: &mut HashMap<String, Src>, report: &mut Vec<serde_json::Value>, contract_only: Option<&str>) -> String {
+    let repo = &ctx.repo;
+    let defs = &ctx.defs;
     let mut out = String::new();
-    let mut report: Vec<serde_json::Value> = Vec::new();
     let mut k = 0;
     while k < lines.len() {
         let l = &lines[k];
         let t = l.trim();
+        if let Some(rest) = t.strip_prefix("//@import ") {
+            let name = rest.trim();
+            let p = ctx.tpl_dir.join(name);
+            let text = std::fs::read_to_string(&p).unwrap_or_else(|e| die(&format!("import {}: {e}", p.display())));
+            let mut exp: Vec<String> = Vec::new();
+            expand(&text, &ctx.prelude_dir, defs, &mut exp, 0);
+            let mut sel: Vec<String> = Vec::new();
+            let mut on = false;
+            for x in exp {
+                let tx = x.trim();
+                if tx == "//@export-begin" { on = true; continue; }
+                if tx == "//@export-end" { on = false; continue; }
+                if on { sel.push(x); }
+            }
+            if sel.is_empty() { die(&format!("import {name}: no //@export-begin region")); }
+            let unit = name.trim_end_matches(".rs.tpl");
+            let _ = writeln!(out, "// ==== contracts imported from unit {unit} (bodies verified there) ====");
+            out.push_str(&process_lines(&sel, ctx, cache, report, Some(unit)));
+            let _ = writeln!(out, "// ==== end import {unit} ====");
+            k += 1;
+            continue;
+        }
+        if t == "//@export-begin" || t == "//@export-end" { k += 1; continue; }
         if let Some(rest) = t.strip_prefix("//@extract ") {
             let mut parts = rest.split_whitespace();
             let file = parts.next().unwrap_or_else(|| die("//@extract needs a file")).to_string();
@@ -952,7 +988,7 @@ fn main() {
                 let ast = syn::parse_file(&text).unwrap_or_else(|e| die(&format!("parse {}: {e}", p.display())));
                 Src { text, ast }
             });
-            match extract(src, &b, &mut report, defs.contains("VACUITY")) {
+            match extract(src, &b, report, defs.contains("VACUITY") && contract_only.is_none(), contract_only) {
                 Ok(txt) => {
                     let _ = writeln!(out, "\t// >>> extracted from {} :: {}", b.file, b.path);
                     out.push('\t');
@@ -972,6 +1008,38 @@ fn main() {
         out.push('\n');
         k += 1;
     }
+    out
+}
+
+fn main() {
+    let args: Vec<String> = std::env::args().collect();
+    if args.len() < 5 {
+        eprintln!("usage: vx <template> <repo-root> <out.rs> <report.json> [-D NAME]...");
+        std::process::exit(2);
+    }
+    let tpl_path = std::path::PathBuf::from(&args[1]);
+    let repo = std::path::PathBuf::from(&args[2]);
+    let mut defs: HashSet<String> = HashSet::new();
+    let mut i = 5;
+    while i < args.len() {
+        if args[i] == "-D" && i + 1 < args.len() {
+            defs.insert(args[i + 1].clone());
+            i += 2;
+        } else {
+            die(&format!("bad argument {}", args[i]));
+        }
+    }
+    let prelude_dir = tpl_path.parent().unwrap().parent().unwrap().join("prelude");
+    let tpl = std::fs::read_to_string(&tpl_path).unwrap_or_else(|e| die(&format!("template: {e}")));
+    // 1. expand includes (recursively) and conditionals into a flat list of lines
+    let mut lines: Vec<String> = Vec::new();
+    expand(&tpl, &prelude_dir, &defs, &mut lines, 0);
+
+    // 2. process extraction blocks
+    let mut cache: HashMap<String, Src> = HashMap::new();
+    let mut report: Vec<serde_json::Value> = Vec::new();
+    let ctx = Ctx { repo: repo.clone(), defs: defs.clone(), tpl_dir: tpl_path.parent().unwrap().to_path_buf(), prelude_dir: prelude_dir.clone() };
+    let out = process_lines(&lines, &ctx, &mut cache, &mut report, None);
     std::fs::write(&args[3], out).unwrap_or_else(|e| die(&format!("write: {e}")));
     std::fs::write(&args[4], serde_json::to_string_pretty(&serde_json::json!({"items": report})).unwrap())
         .unwrap_or_else(|e| die(&format!("write: {e}")));
